@@ -114,6 +114,10 @@ def malformations(typ):
     add('cose-too-few-items', lambda b: edit_msg(b, typ, lambda m: C.dumps(m[:2])))
     add('cose-too-many-items', lambda b: edit_msg(b, typ, lambda m: C.dumps(m + [b'x', b'y'])))
     add('cose-payload-not-detached', lambda b: edit_msg(b, typ, lambda m: m.__setitem__(2, b'attached')))
+    if typ == B.T_BIB:
+        # multi-signer / multi-recipient messages that name nobody: nothing vouches for the content
+        add('cose-sign-without-signers', lambda b: edit_asb(b, typ, lambda a: a['results'][0].__setitem__(0, (98, C.dumps([C.dumps({1: -7}), {}, None, []])))))
+        add('cose-mac-without-recipients', lambda b: edit_asb(b, typ, lambda a: a['results'][0].__setitem__(0, (97, C.dumps([C.dumps({1: 5}), {}, None, b'\x00' * 32, []])))))
     add('result-type-unknown', lambda b: edit_asb(b, typ, lambda a: a['results'][0].__setitem__(0, (999, a['results'][0][0][1]))))
     other = 18 if typ == B.T_BIB else 96
     add('result-type-other-cose-message', lambda b: edit_asb(b, typ, lambda a: a['results'][0].__setitem__(0, (other, a['results'][0][0][1]))))
